@@ -4,7 +4,7 @@
    emitter/table (C11Proofs, MaskTableProofs). *)
 Require Import WD.Base.Prelude WD.Base.BStr WD.Model.SubEvents WD.Model.Emitter WD.Model.MaskTable
                WD.Model.Fs WD.Model.Reader WD.Model.DelayQueue WD.Model.Grouping WD.Model.Pipeline WD.Model.Contract.
-Require Import WD.Gen.MaskTableGen WD.Proofs.MaskTableProofs WD.Proofs.C11Proofs WD.Proofs.ContractProofs
+Require Import WD.Gen.MaskTableGen WD.Proofs.MaskTableProofs WD.Proofs.C11Proofs WD.Proofs.ReaderFixProofs WD.Proofs.ContractProofs
                WD.Proofs.C11KernelProofs WD.Proofs.C11ReaderProofs WD.Proofs.C11TwinProofs WD.Proofs.C11GroupProofs.
 
 Local Notation delivered := MaskTable.delivered.
@@ -180,12 +180,13 @@ Lemma read_batch_masks C t b : forall r k acc r' k' out,
 Proof.
   induction b as [|e b IH]; intros r k acc r' k' out H; cbn [read_batch] in H.
   - inversion H; subst. exists []. split; [now rewrite app_nil_r | constructor].
-  - destruct (read_one_acc C t r k e) as [[r1 [k1 [ev [sims [Hm [Hs [_ H1]]]]]]]|[s H1]]; rewrite H1 in H; [|discriminate].
+  - destruct (read_one_acc C t r k e) as [[r1 [k1 [o [Ho H1]]]]|[s H1]]; rewrite H1 in H; [|discriminate].
     destruct (IH _ _ _ _ _ _ H) as [new [-> Hn]].
-    exists (ev :: sims ++ new). split; [now rewrite <- !app_assoc|].
-    constructor; [left; exists e; split; [left; reflexivity | exact Hm]|].
+    exists (o ++ new). split; [now rewrite <- !app_assoc|].
     apply Forall_app. split.
-    + eapply Forall_impl; [|exact Hs]. intros x Hx. right. exact Hx.
+    + destruct Ho as [->|[ev [sims [-> [Hm [Hs _]]]]]]; [constructor|].
+      constructor; [left; exists e; split; [left; reflexivity | exact Hm]|].
+      eapply Forall_impl; [|exact Hs]. intros x Hx. right. exact Hx.
     + eapply Forall_impl; [|exact Hn]. intros x [[e' [He' Hx]]|Hx]; [left; exists e'; split; [right|]; assumption | right; exact Hx].
 Qed.
 
@@ -516,6 +517,157 @@ Proof.
   - left. reflexivity.
 Qed.
 
+(* ------------------------------------------------------------------ what the reader itself queues in the kernel *)
+(* only IN_IGNORED records of the watches it removes (inotify_rm_watch in _forget_tree, repair F10) *)
+Definition qjunk (k : kst) : Prop := forall e, In e (k_queue k) -> k_mask e = IN_IGNORED.
+
+Lemma krm_watch_junk k wd : qjunk k -> qjunk (krm_watch k wd).
+Proof.
+  intros H. unfold krm_watch. destruct (find _ _); [|exact H].
+  intros e He. cbn [k_queue] in He. apply kpush_in in He as [He| ->]; [now apply H | reflexivity].
+Qed.
+
+Lemma kadd_watch_queue k t p m k' wd : kadd_watch k t p m = Some (k', wd) -> k_queue k' = k_queue k.
+Proof.
+  unfold kadd_watch. destruct (flookup p t); [|discriminate].
+  destruct (watch_of_ino k (f_ino f)); intros H; inversion H; reflexivity.
+Qed.
+
+Section RQ.
+  Variable C : cfg.
+
+  Lemma add_watch_queue r k t p r' k' wd : add_watch C r k t p = Some (r', k', wd) -> k_queue k' = k_queue k.
+  Proof.
+    unfold add_watch. destruct (mem_nat _ _); [discriminate|].
+    destruct (kadd_watch k t p (c_mask C)) as [[k1 w]|] eqn:E; [|discriminate].
+    intros H. inversion H; subst. eapply kadd_watch_queue. exact E.
+  Qed.
+
+  Lemma sim_dirs_queue t root ds : forall r k acc, k_queue (snd (fst (sim_dirs C r k t root ds acc))) = k_queue k.
+  Proof.
+    induction ds as [|d ds IH]; intros r k acc; cbn [sim_dirs]; [reflexivity|].
+    destruct (add_watch C r k t (join root d)) as [[[r1 k1] wd]|] eqn:Ea; rewrite IH; [|reflexivity].
+    eapply add_watch_queue. exact Ea.
+  Qed.
+
+  Lemma simulate_queue t w : forall r k acc r' k' out,
+    simulate C r k t w acc = Done (r', k', out) -> k_queue k' = k_queue k.
+  Proof.
+    induction w as [|[[root ds] fls] w IH]; intros r k acc r' k' out H; cbn [simulate] in H.
+    - inversion H; subst. reflexivity.
+    - pose proof (sim_dirs_queue t root ds r k acc) as Hq.
+      destruct (sim_dirs C r k t root ds acc) as [[r1 k1] a1]. cbn [fst snd] in Hq.
+      destruct (sim_files C r1 root fls a1); [|discriminate]. rewrite (IH _ _ _ _ _ _ H). exact Hq.
+  Qed.
+
+  Lemma add_dirs_queue t ps : forall r k, k_queue (snd (add_dirs C r k t ps)) = k_queue k.
+  Proof.
+    induction ps as [|p ps IH]; intros r k; cbn [add_dirs]; [reflexivity|].
+    destruct (add_watch C r k t p) as [[[r1 k1] wd]|] eqn:Ea; [|reflexivity].
+    rewrite IH. eapply add_watch_queue. exact Ea.
+  Qed.
+
+  Lemma forget_tree_junk keys p : forall r k, qjunk k -> qjunk (snd (forget_tree keys p r k)).
+  Proof.
+    induction keys as [|[q x] keys IH]; intros r k H; cbn [forget_tree]; [exact H|].
+    destruct (beqb q p || starts (p ++ [sep]) q); [|apply IH; exact H].
+    destruct (alookup beqb q (wfp r)) as [wd|]; [|apply IH; exact H].
+    destruct (alookup N.eqb wd (pfw r)) as [q'|]; [|apply IH; exact H].
+    destruct (beqb q' q); apply IH; [apply krm_watch_junk|]; exact H.
+  Qed.
+
+  Lemma settle_junk r k e : qjunk k -> qjunk (snd (settle_pending C r k e)).
+  Proof.
+    intros H. unfold settle_pending. destruct (c_fix_moveout C); [|exact H].
+    destruct (pend r) as [[c p]|]; [|exact H].
+    destruct (is_moved_to (k_mask e) && N.eqb (k_cookie e) c && amem N.eqb (k_wd e) (pfw r)); [exact H|]. apply forget_tree_junk. exact H.
+  Qed.
+
+  Lemma ro_move_queue t r k e wdp : k_queue (snd (fst (ro_move C t r k e wdp))) = k_queue k.
+  Proof.
+    unfold ro_move. destruct (is_moved_from (k_mask e)); [reflexivity|].
+    destruct (is_moved_to (k_mask e)); [|reflexivity].
+    assert (A : forall (b : bool) ps (ev : raw),
+      k_queue (snd (fst (if b then let '(r', k') := add_dirs C r k t ps in (r', k', ev) else (r, k, ev)))) = k_queue k).
+    { intros b ps ev. destruct b; [|reflexivity]. pose proof (add_dirs_queue t ps r k) as H.
+      destruct (add_dirs C r k t ps). exact H. }
+    destruct (alookup N.eqb (k_cookie e) (mvf r)) as [msrc|]; [|apply A].
+    destruct (alookup beqb msrc (wfp r)); [reflexivity | apply A].
+  Qed.
+
+  Lemma read_one_body_queue t r k acc e r' k' out :
+    read_one_body C t (r, k, acc) e = Done (r', k', out) -> k_queue k' = k_queue k.
+  Proof.
+    rewrite read_one_body_factored. destruct (alookup N.eqb (k_wd e) (pfw r)) as [wdp|].
+    2:{ destruct (c_fix_moveout C); [|discriminate]. intros H; inversion H; reflexivity. }
+    pose proof (ro_move_queue t r k e wdp) as Hm.
+    destruct (ro_move C t r k e wdp) as [[r1 k1] ev1]. cbn [fst snd] in Hm.
+    destruct (ro_ignored C r1 e) as [r2|]; [|discriminate].
+    destruct (c_recursive C && is_directory (k_mask e) && is_create (k_mask e)).
+    - destruct (add_watch C r2 k1 t (r_path ev1)) as [[[r3 k3] wd]|] eqn:Ea.
+      + intros H. apply simulate_queue in H. apply add_watch_queue in Ea. congruence.
+      + intros H. inversion H; subst. exact Hm.
+    - intros H. inversion H; subst. exact Hm.
+  Qed.
+
+  Lemma read_batch_junk t b : forall r k acc r' k' out,
+    qjunk k -> read_batch C t (r, k, acc) b = Done (r', k', out) -> qjunk k'.
+  Proof.
+    induction b as [|e b IH]; intros r k acc r' k' out H Hrun; cbn [read_batch] in Hrun.
+    - inversion Hrun; subst. exact H.
+    - destruct (read_one C t (r, k, acc) e) as [[[r1 k1] a1]|] eqn:E1; [|discriminate].
+      rewrite read_one_settle in E1. pose proof (settle_junk r k e H) as Hs.
+      apply read_one_body_queue in E1. eapply IH; [|exact Hrun].
+      intros x Hx. apply Hs. rewrite <- E1. exact Hx.
+  Qed.
+End RQ.
+
+(* twins that start with the same unread records end with the same unread records: the readers queue the same IN_IGNORED
+   records (inotify_rm_watch is not maskable) *)
+Section TQ.
+  Variable C : cfg.
+  Variables M M' : N.
+  Let C' := with_mask C M'.
+
+  Lemma forget_tree_twin_queue keys p : forall r k k',
+    kwt M M' k k' -> k_queue k = k_queue k' ->
+    k_queue (snd (forget_tree keys p r k)) = k_queue (snd (forget_tree keys p r k')).
+  Proof.
+    induction keys as [|[q x] keys IH]; intros r k k' T Q; cbn [forget_tree]; [exact Q|].
+    destruct (beqb q p || starts (p ++ [sep]) q); [|apply IH; assumption].
+    destruct (alookup beqb q (wfp r)) as [wd|]; [|apply IH; assumption].
+    destruct (alookup N.eqb wd (pfw r)) as [q'|]; [|apply IH; assumption].
+    destruct (beqb q' q); [|apply IH; assumption].
+    destruct (krm_watch_twin M M' k k' wd T Q) as [T1 Q1]. apply IH; assumption.
+  Qed.
+
+  Lemma settle_twin_queue r k k' e : kwt M M' k k' -> k_queue k = k_queue k' ->
+    k_queue (snd (settle_pending C r k e)) = k_queue (snd (settle_pending C' r k' e)).
+  Proof.
+    intros T Q. unfold settle_pending. cbn [C' with_mask c_fix_moveout].
+    destruct (c_fix_moveout C); [|exact Q]. destruct (pend r) as [[c p]|]; [|exact Q].
+    destruct (is_moved_to (k_mask e) && N.eqb (k_cookie e) c && amem N.eqb (k_wd e) (pfw r)); [exact Q|].
+    apply forget_tree_twin_queue; assumption.
+  Qed.
+
+  Lemma read_batch_twin_queue (HM : c_mask C = M) t b : forall r k k' acc r1 k1 o1 r2 k2 o2,
+    kwt M M' k k' -> k_queue k = k_queue k' ->
+    read_batch C t (r, k, acc) b = Done (r1, k1, o1) -> read_batch C' t (r, k', acc) b = Done (r2, k2, o2) ->
+    k_queue k1 = k_queue k2.
+  Proof.
+    induction b as [|e b IH]; intros r k k' acc r1 k1 o1 r2 k2 o2 T Q H1 H2; cbn [read_batch] in *.
+    - inversion H1; inversion H2; subst. exact Q.
+    - destruct (read_one C t (r, k, acc) e) as [[[ra ka] oa]|] eqn:E1; [|discriminate].
+      destruct (read_one C' t (r, k', acc) e) as [[[rb kb] ob]|] eqn:E2; [|discriminate].
+      pose proof (read_one_twin C M M' HM t r k k' acc e T) as Tw. fold C' in Tw. rewrite E1, E2 in Tw.
+      destruct Tw as [Ta [Tb Tc]]. cbn [fst snd] in *. subst rb ob.
+      rewrite read_one_settle in E1, E2.
+      apply read_one_body_queue in E1. apply read_one_body_queue in E2.
+      eapply (IH ra ka kb oa); try eassumption.
+      rewrite E1, E2. apply settle_twin_queue; assumption.
+  Qed.
+End TQ.
+
 Section Step.
   Variable F : option (list evbase).
   Variable C : cfg.
@@ -548,41 +700,59 @@ Section Step.
     - now rewrite (has_flag_kept M' (N.lor IN_CREATE IN_ISDIR) IN_CREATE eq_refl V2).
   Qed.
 
+  (* the kernel queue of the unfiltered watch behaves regularly around this operation: no two records that the kernel
+     would coalesce once the records in between are not sent (a fact about the unfiltered world only; proved from a
+     drained queue: kernel_op_nodup), and no unsent record right after a remembered or fresh directory IN_MOVED_FROM
+     (a dropped record there would make the unfiltered reader settle its move-out candidate earlier than the
+     filtered one: the lag is harmless but is not covered by this theorem) *)
+  Definition regular_step (w : world) (k : kst) (r : rstate) (o : op) : Prop :=
+    NoDup (map kkey (k_queue k)) /\
+    NoDup (map kkey (k_queue (kernel_op k (w_fs w) o))) /\
+    guardedb C (kkeep M') (pending_of C r) (k_queue (kernel_op k (w_fs w) o)) = true.
+
   (* ONE OPERATION: the filtered watch queues the accepted part of what the unfiltered watch queues,
      and the two worlds stay twins *)
   Theorem transparent_step full w k k' r o w1 k1 r1 evs :
-    kw0 WATCHDOG_ALL M' k k' ->
+    kw0 WATCHDOG_ALL M' k k' -> k_queue k = k_queue k' -> qjunk k -> regular_step w k r o ->
     run_one None C full w k r o = Some (w1, k1, r1, evs) ->
     exists k1', run_one F C' full w k' r o = Some (w1, k1', r1, filter (acc F) evs) /\
-                kw0 WATCHDOG_ALL M' k1 k1'.
+                kw0 WATCHDOG_ALL M' k1 k1' /\ k_queue k1 = k_queue k1' /\ qjunk k1.
   Proof.
-    intros [T [Q Q']] Hrun. unfold run_one in *.
+    intros T Q J [ND0 [ND1 G]] Hrun. unfold run_one in *.
     destruct (apply_op w o) as [w'|]; [|discriminate].
     set (kU := kernel_op k (w_fs w) o) in *. set (kF := kernel_op k' (w_fs w) o).
-    assert (Q0 : kq M' k k') by (unfold kq; rewrite Q, Q'; reflexivity).
+    assert (Q0 : kq M' k k').
+    { unfold kq. rewrite <- Q.
+      rewrite (filter_all (fun x : kraw => kkeep M' (k_mask x)) (k_queue k)).
+      - symmetry. apply kcollapse_keys. exact ND0.
+      - intros x Hx. rewrite (J x Hx). reflexivity. }
     destruct (kernel_op_twin WATCHDOG_ALL M' (kmask_sub F rec) (kmask_nodir F rec) k k' (w_fs w) o T Q0) as [T1 Q1].
     fold kU kF in T1, Q1. unfold kq in Q1.
-    rewrite (kcollapse_keys _ (NoDup_key_filter kkey _ _ (kernel_op_nodup k (w_fs w) o Q))) in Q1. fold kU in Q1.
+    rewrite (kcollapse_keys _ (NoDup_key_filter kkey _ _ ND1)) in Q1.
     destruct (read_batch C (w_fs w') (r, kdrained kU, []) (k_queue kU)) as [[[r' kk] raws]|] eqn:Hrd; [|discriminate].
     inversion Hrun; subst w1 k1 r1 evs; clear Hrun.
-    pose proof (reader_transparent C (w_fs w') (kkeep M') structural_kept sim_kept _ _ _ _ _ _ _ Hrd) as Hrt.
+    pose proof (reader_transparent C (w_fs w') (kkeep M') structural_kept sim_kept (k_queue kU) r (kdrained kU) []
+                  r' kk raws (pending_of C r) (fun H => H) G Hrd) as Hrt.
     cbn [filter] in Hrt.
     assert (K0 : kw0 WATCHDOG_ALL M' (kdrained kU) (kdrained kF)).
-    { split; [|split; reflexivity]. destruct T1 as [a b c d]. constructor; assumption. }
+    { destruct T1 as [a b c d]. constructor; assumption. }
     pose proof (read_batch_twin C WATCHDOG_ALL M' HM (w_fs w')
                   (filter (fun e => kkeep M' (k_mask e)) (k_queue kU)) r (kdrained kU) (kdrained kF) [] K0) as Htw.
     rewrite Hrt in Htw. fold C' in Htw. rewrite Q1.
     destruct (read_batch C' (w_fs w') (r, kdrained kF, []) (filter (fun e => kkeep M' (k_mask e)) (k_queue kU)))
-      as [[[r2 k2] raws2]|]; [|contradiction].
+      as [[[r2 k2] raws2]|] eqn:HrdF; [|contradiction].
     destruct Htw as [H1 [H2 H3]]. cbn [fst snd] in *. subst r2 raws2.
-    exists k2. split; [|exact H3]. f_equal. f_equal.
+    exists k2. split; [|split; [exact H3|split]].
+    2:{ eapply (read_batch_twin_queue C WATCHDOG_ALL M' HM); [exact K0 | reflexivity | exact Hrt | exact HrdF]. }
+    2:{ eapply (read_batch_junk C); [|exact Hrd]. intros e []. }
+    f_equal. f_equal.
     unfold C'. rewrite group_batch_with_mask. cbn [with_mask c_recursive c_root].
     (* the raws have kernel-shaped masks *)
     assert (Hsh : Forall (fun x => kshaped (r_mask x)) raws).
     { destruct (read_batch_masks _ _ _ _ _ _ _ _ _ Hrd) as [new [E Hn]]. cbn [app] in E. subst new.
       eapply Forall_impl; [|exact Hn]. intros x [[e [He ->]]|Hx]; [|apply sim_raw_shaped; exact Hx].
       assert (QS : qshaped kU).
-      { apply kernel_op_shaped. intros e0 He0. rewrite Q in He0. destruct He0. }
+      { apply kernel_op_shaped. intros e0 He0. left. apply J. exact He0. }
       apply QS. exact He. }
     rewrite (group_batch_handed C M' (kmask_events F rec) (kmask_nodir F rec) whole_kmask raws Hsh).
     rewrite emit_all_f_none. apply emit_all_handed.
@@ -617,30 +787,167 @@ Definition run_from (F : option (list evbase)) (C : cfg) (full_events : bool) (w
   | Some (r, k) => run_seq F C full_events w k r ops
   end.
 
+(* [regular_step] at every operation of the UNFILTERED run (nothing here speaks about the filtered watch except the
+   mask in the guard) *)
+Fixpoint regular (F : option (list evbase)) (C : cfg) (full_events : bool) (w : world) (k : kst) (r : rstate)
+    (ops : list op) : Prop :=
+  match ops with
+  | [] => True
+  | o :: rest =>
+    match apply_op w o with
+    | None => regular F C full_events w k r rest
+    | Some _ =>
+      regular_step F C w k r o /\
+      match run_one None C full_events w k r o with
+      | Some (w1, k1, r1, _) => regular F C full_events w1 k1 r1 rest
+      | None => True
+      end
+    end
+  end.
+
+Definition regular_from (F : option (list evbase)) (C : cfg) (full_events : bool) (w : world) (ops : list op) : Prop :=
+  match construct C kinit (w_fs w) with
+  | None => True
+  | Some (r, k) => regular F C full_events w k r ops
+  end.
+
+(* ---- an executable check of [regular] (for concrete histories) *)
+Fixpoint nodupb (l : list kraw) : bool :=
+  match l with [] => true | a :: l' => negb (existsb (kraw_eqb a) l') && nodupb l' end.
+
+Lemma nodupb_sound l : nodupb l = true -> NoDup (map kkey l).
+Proof.
+  induction l as [|a l IH]; simpl; intros H; [constructor|]. apply andb_true_iff in H as [H1 H2].
+  constructor; [|exact (IH H2)]. intros Hin. apply in_map_iff in Hin as [x [Hx Hin]].
+  apply negb_true_iff in H1. assert (E : existsb (kraw_eqb a) l = true); [|congruence].
+  apply existsb_exists. exists x. split; [exact Hin|]. apply kraw_eqb_key. now symmetry.
+Qed.
+
+Definition regular_stepb (F : option (list evbase)) (C : cfg) (w : world) (k : kst) (r : rstate) (o : op) : bool :=
+  nodupb (k_queue k) && nodupb (k_queue (kernel_op k (w_fs w) o)) &&
+  guardedb C (kkeep (kmask F (c_recursive C))) (pending_of C r) (k_queue (kernel_op k (w_fs w) o)).
+
+Fixpoint regularb (F : option (list evbase)) (C : cfg) (full_events : bool) (w : world) (k : kst) (r : rstate)
+    (ops : list op) : bool :=
+  match ops with
+  | [] => true
+  | o :: rest =>
+    match apply_op w o with
+    | None => regularb F C full_events w k r rest
+    | Some _ =>
+      regular_stepb F C w k r o &&
+      match run_one None C full_events w k r o with
+      | Some (w1, k1, r1, _) => regularb F C full_events w1 k1 r1 rest
+      | None => true
+      end
+    end
+  end.
+
+Lemma regularb_sound F C full ops : forall w k r, regularb F C full w k r ops = true -> regular F C full w k r ops.
+Proof.
+  induction ops as [|o ops IH]; intros w k r H; cbn [regular regularb] in *; [exact I|].
+  destruct (apply_op w o); [|apply IH; exact H].
+  apply andb_true_iff in H as [H1 H2]. unfold regular_stepb in H1.
+  apply andb_true_iff in H1 as [H1 H13]. apply andb_true_iff in H1 as [H11 H12]. split.
+  - split; [apply nodupb_sound; exact H11|]. split; [apply nodupb_sound; exact H12 | exact H13].
+  - destruct (run_one None C full w k r o) as [[[[w1 k1] r1] e1]|]; [apply IH; exact H2 | exact I].
+Qed.
+
+Definition regular_fromb (F : option (list evbase)) (C : cfg) (full_events : bool) (w : world) (ops : list op) : bool :=
+  match construct C kinit (w_fs w) with
+  | None => true
+  | Some (r, k) => regularb F C full_events w k r ops
+  end.
+
+Lemma regular_fromb_sound F C full w ops : regular_fromb F C full w ops = true -> regular_from F C full w ops.
+Proof.
+  unfold regular_fromb, regular_from. destruct (construct C kinit (w_fs w)) as [[r k]|]; [apply regularb_sound | intros _; exact I].
+Qed.
+
+(* no candidate is ever remembered along the run (no directory leaves or moves inside the tree): regular for EVERY filter *)
+Lemma guarded_never C keep b : forallb (fun e => negb (sets_pend C (k_mask e))) b = true -> guardedb C keep false b = true.
+Proof.
+  induction b as [|e b IH]; [reflexivity|]. cbn [forallb guardedb]. intros H. apply andb_true_iff in H as [H1 H2].
+  apply negb_true_iff in H1. rewrite H1. exact (IH H2).
+Qed.
+
+Fixpoint calmb (C : cfg) (full_events : bool) (w : world) (k : kst) (r : rstate) (ops : list op) : bool :=
+  match ops with
+  | [] => true
+  | o :: rest =>
+    match apply_op w o with
+    | None => calmb C full_events w k r rest
+    | Some _ =>
+      nodupb (k_queue k) && nodupb (k_queue (kernel_op k (w_fs w) o)) && negb (pending_of C r) &&
+      forallb (fun e => negb (sets_pend C (k_mask e))) (k_queue (kernel_op k (w_fs w) o)) &&
+      match run_one None C full_events w k r o with
+      | Some (w1, k1, r1, _) => calmb C full_events w1 k1 r1 rest
+      | None => true
+      end
+    end
+  end.
+
+Lemma calmb_sound F C full ops : forall w k r, calmb C full w k r ops = true -> regular F C full w k r ops.
+Proof.
+  induction ops as [|o ops IH]; intros w k r H; cbn [regular calmb] in *; [exact I|].
+  destruct (apply_op w o); [|apply IH; exact H].
+  apply andb_true_iff in H as [H H5]. apply andb_true_iff in H as [H H4]. apply andb_true_iff in H as [H H3].
+  apply andb_true_iff in H as [H1 H2]. apply negb_true_iff in H3. split.
+  - split; [apply nodupb_sound; exact H1|]. split; [apply nodupb_sound; exact H2|].
+    rewrite H3. apply guarded_never. exact H4.
+  - destruct (run_one None C full w k r o) as [[[[w1 k1] r1] e1]|]; [apply IH; exact H5 | exact I].
+Qed.
+
+Definition calm_fromb (C : cfg) (full_events : bool) (w : world) (ops : list op) : bool :=
+  match construct C kinit (w_fs w) with
+  | None => true
+  | Some (r, k) => calmb C full_events w k r ops
+  end.
+
+Lemma calm_fromb_sound F C full w ops : calm_fromb C full w ops = true -> regular_from F C full w ops.
+Proof.
+  unfold calm_fromb, regular_from. destruct (construct C kinit (w_fs w)) as [[r k]|]; [apply calmb_sound | intros _; exact I].
+Qed.
+
 Theorem transparent_seq F C full (HM : c_mask C = WATCHDOG_ALL) (Hvis : visible F (c_recursive C)) ops :
   forall w k k' r evs,
-    kw0 WATCHDOG_ALL (kmask F (c_recursive C)) k k' ->
+    kw0 WATCHDOG_ALL (kmask F (c_recursive C)) k k' -> k_queue k = k_queue k' -> qjunk k -> regular F C full w k r ops ->
     run_seq None C full w k r ops = Some evs ->
     run_seq F (with_mask C (kmask F (c_recursive C))) full w k' r ops = Some (filter (acc F) evs).
 Proof.
-  induction ops as [|o ops IH]; intros w k k' r evs K H; cbn [run_seq] in *.
+  induction ops as [|o ops IH]; intros w k k' r evs K Q J R H; cbn [run_seq regular] in *.
   - inversion H; subst. reflexivity.
   - destruct (apply_op w o) eqn:Ea; [|eapply IH; eassumption].
+    destruct R as [R0 R].
     destruct (run_one None C full w k r o) as [[[[w1 k1] r1] e1]|] eqn:E1; [|discriminate].
-    destruct (transparent_step F C HM Hvis full w k k' r o w1 k1 r1 e1 K E1) as [k1' [E2 K1]].
+    destruct (transparent_step F C HM Hvis full w k k' r o w1 k1 r1 e1 K Q J R0 E1) as [k1' [E2 [K1 [Q1 J1]]]].
     rewrite E2.
     destruct (run_seq None C full w1 k1 r1 ops) as [e2|] eqn:E3; [|discriminate].
     cbn [option_map] in H. inversion H; subst evs.
-    rewrite (IH w1 k1 k1' r1 e2 K1 E3). cbn [option_map]. now rewrite filter_app.
+    rewrite (IH w1 k1 k1' r1 e2 K1 Q1 J1 R E3). cbn [option_map]. now rewrite filter_app.
+Qed.
+
+Lemma construct_queue C t r k : construct C kinit t = Some (r, k) -> k_queue k = [].
+Proof.
+  unfold construct. destruct (fisdir (c_root C) t); [|discriminate].
+  destruct (add_watch C rinit0 kinit t (c_root C)) as [[[r1 k1] wd]|] eqn:Ea; [|discriminate].
+  apply add_watch_queue in Ea. destruct (c_recursive C); [|intros H; inversion H; subst; exact Ea].
+  generalize (walk_dirs t (c_root C)). intros ps. revert r1 k1 Ea.
+  induction ps as [|p ps IH]; intros r1 k1 Ea H; [inversion H; subst; exact Ea|].
+  destruct (add_watch C r1 k1 t p) as [[[r2 k2] wd2]|] eqn:Ea2; [|discriminate].
+  apply (IH r2 k2); [|exact H]. apply add_watch_queue in Ea2. congruence.
 Qed.
 
 Theorem transparent_from F C full (HM : c_mask C = WATCHDOG_ALL) (Hvis : visible F (c_recursive C)) w ops evs :
+  regular_from F C full w ops ->
   run_from None C full w ops = Some evs ->
   run_from F (with_mask C (kmask F (c_recursive C))) full w ops = Some (filter (acc F) evs).
 Proof.
-  unfold run_from. intros H.
+  unfold run_from, regular_from. intros R H.
   pose proof (construct_twin C WATCHDOG_ALL (kmask F (c_recursive C)) HM (w_fs w)) as T.
-  destruct (construct C kinit (w_fs w)) as [[r k]|]; [|discriminate].
-  destruct (construct (with_mask C (kmask F (c_recursive C))) kinit (w_fs w)) as [[r' k']|]; [|contradiction].
-  destruct T as [<- K]. eapply transparent_seq; eassumption.
+  destruct (construct C kinit (w_fs w)) as [[r k]|] eqn:Ec; [|discriminate].
+  destruct (construct (with_mask C (kmask F (c_recursive C))) kinit (w_fs w)) as [[r' k']|] eqn:Ec'; [|contradiction].
+  destruct T as [<- K]. eapply transparent_seq; try eassumption.
+  - rewrite (construct_queue _ _ _ _ Ec), (construct_queue _ _ _ _ Ec'). reflexivity.
+  - intros e He. rewrite (construct_queue _ _ _ _ Ec) in He. destruct He.
 Qed.
